@@ -10,17 +10,18 @@ import (
 )
 
 var c05Opts = bridge.GenOpts{
-	Decimals:    []uint64{0, 6, 8, 18, 24},
-	Commissions: []string{"0", "0.01", "0.000000000000000001", "0.5", "0.99"},
-	PrefixIds:   true,
-	Bursts:      true,
-	BigAmounts:  true,
-	Whale:       true,
-	BlockTimes:  true,
-	MaxVals:     5,
-	Denoms:      3,
-	Holders:     true,
-	Weights:     map[string]int{"burst": 3, "hostile": 10, "oprice": 3, "oholders": 3, "byz": 3, "sign": 2, "send2": 3, "xwhale": 3},
+	Decimals:      []uint64{0, 6, 8, 18, 24},
+	Commissions:   []string{"0", "0.01", "0.000000000000000001", "0.5", "0.99"},
+	PrefixIds:     true,
+	Bursts:        true,
+	BigAmounts:    true,
+	Whale:         true,
+	BlockTimes:    true,
+	MaybeNoPrices: true,
+	MaxVals:       5,
+	Denoms:        3,
+	Holders:       true,
+	Weights:       map[string]int{"burst": 3, "hostile": 10, "oprice": 3, "oholders": 3, "byz": 3, "sign": 2, "send2": 3, "xwhale": 3},
 }
 
 func TestC05(t *testing.T) {
